@@ -109,6 +109,8 @@ def _reduce_axes(v, axes, keepdim: bool, op: str):
     """sum / mean of a nested list over the given axes (empty = all axes, as torch does for dim=())"""
     shp = _shape(v)
     rank = len(shp)
+    if rank == 0 or any(isinstance(a, bool) or not isinstance(a, int) or not (-rank <= a < rank) for a in axes) or len({a % rank for a in axes}) != len(list(axes)):
+        raise Unfoldable("reduction axes out of range or repeated")
     axes = sorted({a % rank for a in axes}) if axes else list(range(rank))
 
     def get(idx):
@@ -159,6 +161,53 @@ def _build(flat: list, shape: List[int]):
     for d in shape[1:]:
         step *= d
     return [_build(flat[i * step : (i + 1) * step], shape[1:]) for i in range(shape[0])]
+
+
+def _fibers(v, d: int, fn, keepdim: bool = False):
+    """apply fn to every 1-D fibre of the nested list v along axis d (any rank); the axis is removed (or kept with length 1)"""
+    shp = _shape(v)
+    rank = len(shp)
+    if rank == 0 or isinstance(d, bool) or not isinstance(d, int) or not (-rank <= d < rank):
+        raise Unfoldable("reduction axis out of range")
+    d %= rank
+    if shp[d] == 0:
+        raise Unfoldable("reduction over an empty axis")
+
+    def fibre(t, idx):
+        # idx: indices for all axes except d
+        cur = t
+        out = []
+        for k in range(shp[d]):
+            cur = t
+            j = 0
+            for ax in range(rank):
+                cur = cur[k] if ax == d else cur[idx[j]]
+                if ax != d:
+                    j += 1
+            out.append(cur)
+        return out
+
+    other = [shp[a] for a in range(rank) if a != d]
+
+    def build(prefix, level):
+        if level == len(other):
+            r = fn(fibre(v, prefix))
+            return r
+        return [build(prefix + [i], level + 1) for i in range(other[level])]
+
+    try:
+        res = build([], 0)
+    except (IndexError, TypeError) as exc:
+        raise Unfoldable(f"ragged value: {exc}")
+    if keepdim:
+        # re-insert the reduced axis with length 1
+        def ins(t, level):
+            if level == d:
+                return [t]
+            return [ins(x, level + 1) for x in t]
+
+        res = ins(res, 0)
+    return res
 
 
 def _reshape(v, dims: List[int]):
@@ -369,6 +418,8 @@ class Folder:
                 return PySeq(dims)
             if node.attr in ("T", "mT"):
                 v = self.fold(node.value)
+                if isinstance(v, list) and _depth(v) > 2:
+                    raise Unfoldable("transpose of a tensor of rank above 2")
                 if isinstance(v, list) and v and isinstance(v[0], list):
                     return [[row[j] for row in v] for j in range(len(v[0]))]
                 raise Unfoldable("transpose of a non-matrix")
@@ -510,6 +561,10 @@ class Folder:
             return same if isinstance(node.ops[0], ast.Is) else not same
         if isinstance(node, ast.Compare) and len(node.ops) == 1 and isinstance(node.ops[0], (ast.Lt, ast.Gt, ast.LtE, ast.GtE, ast.Eq, ast.NotEq)):
             a, b = self.fold(node.left), self.fold(node.comparators[0])
+            if isinstance(a, PySeq) and isinstance(b, PySeq) and isinstance(node.ops[0], (ast.Eq, ast.NotEq)):
+                # python sequences (shapes, tuples) compare as wholes
+                same_ = list(a) == list(b)
+                return same_ if isinstance(node.ops[0], ast.Eq) else not same_
             f = {ast.Lt: lambda x, y: int(x < y), ast.Gt: lambda x, y: int(x > y), ast.LtE: lambda x, y: int(x <= y), ast.GtE: lambda x, y: int(x >= y), ast.Eq: lambda x, y: int(x == y), ast.NotEq: lambda x, y: int(x != y)}[type(node.ops[0])]
             try:
                 r_ = _ew(f, a, b)
@@ -588,6 +643,8 @@ class Folder:
                 raise Unfoldable("bit_length of a non-integer")
             if m in ("t",) and not node.args:
                 v = self.fold(node.func.value)
+                if isinstance(v, list) and _depth(v) > 2:
+                    raise Unfoldable("transpose of a tensor of rank above 2")
                 if isinstance(v, list) and v and isinstance(v[0], list):
                     return [[row[j] for row in v] for j in range(len(v[0]))]
                 raise Unfoldable("transpose of a non-matrix")
@@ -602,6 +659,28 @@ class Folder:
             if m == "tolist" and not node.args:
                 v = self.fold(node.func.value)
                 return PySeq(v) if isinstance(v, list) else v
+            if m == "bool" and not node.args and not node.keywords:
+                v = self.fold(node.func.value)
+                if isinstance(v, BoolList) or isinstance(v, bool):
+                    return v
+                if isinstance(v, list) and not isinstance(v, PySeq):
+
+                    def _nz(t):
+                        return BoolList([_nz(e) for e in t]) if isinstance(t, list) else bool(t)
+
+                    return _nz(v)
+                if isinstance(v, (int, float)):
+                    return bool(v)
+                raise Unfoldable("bool() of a non-tensor")
+            if m == "is_complex" and not node.args and not node.keywords:
+                v = self.fold(node.func.value)
+
+                def _anyc(t):
+                    return any(_anyc(e) for e in t) if isinstance(t, list) else isinstance(t, complex)
+
+                if isinstance(v, PySeq) or not isinstance(v, (list, int, float, complex)) or isinstance(v, bool):
+                    raise Unfoldable("is_complex of a non-tensor")
+                return _anyc(v)
             if m in ("to", "float", "int", "long", "double", "type", "clone", "contiguous", "item", "detach", "cpu", "cuda"):
                 return self.fold(node.func.value)
             if m == "size" and len(node.args) <= 1 and not node.keywords:
@@ -630,9 +709,10 @@ class Folder:
             if m == "squeeze" and len(node.args) <= 1 and not node.keywords:
                 v = self.fold(node.func.value)
                 if not node.args:
-                    while isinstance(v, list) and len(v) == 1:
-                        v = v[0]
-                    return v
+                    if not isinstance(v, list):
+                        return v
+                    dims_ = [n_ for n_ in _shape(v) if n_ != 1]
+                    return _reshape(v, dims_) if dims_ else _flat(v)[0]
                 d = self.fold(node.args[0])
                 if isinstance(v, list) and d == 0:
                     return v[0] if len(v) == 1 else v
@@ -651,17 +731,22 @@ class Folder:
                     return [[x] for x in v]
                 raise Unfoldable("unsqueeze")
             if (m in ("view", "reshape") and len(node.args) == 1 and isinstance(node.args[0], ast.UnaryOp) and unparse(node.args[0]) == "-1") or (m == "flatten" and not node.args):
-                def _flat(z):
-                    return [y for x in z for y in _flat(x)] if isinstance(z, list) else [z]
                 return _flat(self.fold(node.func.value))
             if m in ("any", "all") and (node.args or node.keywords):
                 v = self.fold(node.func.value)
                 d = self.fold(node.args[0] if node.args else node.keywords[0].value)
-                red = any if m == "any" else all
-                if isinstance(v, list) and v and isinstance(v[0], list) and d in (0, 1, -1, -2):
-                    if d in (1, -1):
-                        return BoolList(int(red(bool(t) for t in row)) for row in v)
-                    return BoolList(int(red(bool(row[j]) for row in v)) for j in range(len(v[0])))
+                kd_ = bool(next((self.fold(k.value) for k in node.keywords if k.arg == "keepdim"), False))
+                if isinstance(v, list) and not isinstance(v, PySeq) and isinstance(d, int) and not isinstance(d, bool):
+                    shp_ = _shape(v)
+                    if not (-len(shp_) <= d < len(shp_)) or shp_[d % len(shp_)] == 0:
+                        raise Unfoldable("any/all over an axis")
+                    size_ = shp_[d % len(shp_)]
+                    try:
+                        cnt_ = _reduce_axes(_ew(lambda x: 1 if x else 0, v), [d], kd_, "sum")
+                    except (TypeError, IndexError) as exc:
+                        raise Unfoldable(f"any/all over an axis: {exc}")
+                    res_ = _ew((lambda c: int(c > 0)) if m == "any" else (lambda c: int(c == size_)), cnt_)
+                    return BoolList(res_) if isinstance(res_, list) else bool(res_)
                 raise Unfoldable("any/all over an axis")
             if m in ("expand", "expand_as", "broadcast_to") and node.args:
                 v = self.fold(node.func.value)
@@ -702,6 +787,12 @@ class Folder:
                 fake = ast.Call(func=ast.Attribute(value=ast.Name(id="torch", ctx=ast.Load()), attr=m, ctx=ast.Load()), args=[node.func.value] + list(node.args), keywords=list(node.keywords))
                 return self.fold(fake)
             raise Unfoldable(f"method {m}")
+        if isinstance(node, ast.Call) and isinstance(node.func, ast.Attribute) and self.ctors and attr_chain(node.func) in self.ctors and all(k.arg is not None for k in node.keywords):
+            # a library call the caller models itself (e.g. a random draw replaced by a fixed table of draws)
+            try:
+                return self.ctors[attr_chain(node.func)](*[self.fold(a) for a in node.args], **{k.arg: self.fold(k.value) for k in node.keywords})
+            except (TypeError, ValueError) as exc:
+                raise Unfoldable(str(exc))
         if isinstance(node, ast.Call) and isinstance(node.func, ast.Name) and node.func.id in self.ctors and all(k.arg is not None for k in node.keywords):
             try:
                 return self.ctors[node.func.id](*[self.fold(a) for a in node.args], **{k.arg: self.fold(k.value) for k in node.keywords})
@@ -884,13 +975,9 @@ class Folder:
                 v = self.fold(node.args[0])
                 d = self.fold(node.args[1] if len(node.args) == 2 else next(k.value for k in node.keywords if k.arg == "dim"))
                 pick = max if short == "argmax" else min
-                if isinstance(v, list) and v and isinstance(v[0], list) and d in (0, 1, -1, -2):
-                    if d in (1, -1):
-                        return [row.index(pick(row)) for row in v]
-                    cols = [[row[j] for row in v] for j in range(len(v[0]))]
-                    return [c.index(pick(c)) for c in cols]
-                if isinstance(v, list) and d in (0, -1):
-                    return v.index(pick(v))
+                kd_ = bool(next((self.fold(k.value) for k in node.keywords if k.arg == "keepdim"), False))
+                if isinstance(v, list) and not isinstance(v, PySeq) and v:
+                    return _fibers(v, d, lambda f_: f_.index(pick(f_)), kd_)
                 raise Unfoldable("arg-reduction over an axis")
             if short in ("sum", "mean") and node.args and (any(k.arg == "dim" for k in node.keywords) or len(node.args) == 2) and (any(k.arg == "keepdim" for k in node.keywords) or isinstance(self._peek(node.args[1] if len(node.args) == 2 else next(k.value for k in node.keywords if k.arg == "dim")), list)):
                 v = self.fold(node.args[0])
@@ -902,17 +989,27 @@ class Folder:
             if short == "sum" and node.args and (any(k.arg == "dim" for k in node.keywords) or len(node.args) == 2):
                 v = self.fold(node.args[0])
                 d = self.fold(node.args[1] if len(node.args) == 2 else next(k.value for k in node.keywords if k.arg == "dim"))
-                if isinstance(v, list) and v and isinstance(v[0], list) and d in (0, 1, -1, -2):
-                    if d in (1, -1):
-                        return [sum(row) for row in v]
-                    return [sum(row[j] for row in v) for j in range(len(v[0]))]
-                if isinstance(v, list) and d in (0, -1):
-                    return sum(v)
+                if isinstance(v, list) and not isinstance(v, PySeq) and isinstance(d, int) and not isinstance(d, bool):
+                    shp_ = _shape(v)
+                    if not (-len(shp_) <= d < len(shp_)):
+                        raise Unfoldable("sum over an axis")
+                    if shp_[d % len(shp_)] == 0 and len(shp_) == 1:
+                        return 0
+                    try:
+                        return _reduce_axes(v, [d], False, "sum")
+                    except (TypeError, IndexError) as exc:
+                        raise Unfoldable(f"sum over an axis: {exc}")
                 raise Unfoldable("sum over an axis")
             if short in ("sum", "prod", "amin", "amax", "argmin", "argmax", "mean") and node.args:
                 v = self.fold(node.args[0])
-                if short == "sum" and isinstance(v, list) and v and isinstance(v[0], list):
-                    return sum(sum(row) for row in v)
+                if short in ("sum", "mean", "prod", "amin", "amax") and isinstance(v, list) and not isinstance(v, PySeq) and v and isinstance(v[0], list) and len(node.args) == 1 and not node.keywords:
+
+                    def _fl(z):
+                        return [y for x in z for y in _fl(x)] if isinstance(z, list) else [z]
+
+                    v = _fl(v)
+                    if not v:
+                        raise Unfoldable("reduction of an empty tensor")
                 if isinstance(v, list) and v and not any(isinstance(x, list) for x in v):
                     if short == "sum":
                         return sum(v)
@@ -931,9 +1028,21 @@ class Folder:
                 raise Unfoldable("nested reduction")
             if short in ("min", "max") and len(node.args) == 1 and all(k.arg in ("dim", "keepdim") for k in node.keywords):
                 v = self.fold(node.args[0])
-                if isinstance(v, list) and v and not any(isinstance(x, list) for x in v):
-                    val = (min if short == "min" else max)(v)
-                    return [val, v.index(val)] if node.keywords else val
+                pick_ = min if short == "min" else max
+                if isinstance(v, list) and not isinstance(v, PySeq) and v and nm.startswith("torch.") and any(k.arg == "dim" for k in node.keywords):
+                    d_ = self.fold(next(k.value for k in node.keywords if k.arg == "dim"))
+                    kd_ = bool(next((self.fold(k.value) for k in node.keywords if k.arg == "keepdim"), False))
+                    if _depth(v) == 1 and isinstance(d_, int) and not (-1 <= d_ < 1):
+                        d_ = 0  # a 1-D sample stands for the fibre along the reduction axis, whatever its number
+                    return PySeq([_fibers(v, d_, pick_, kd_), _fibers(v, d_, lambda f_: f_.index(pick_(f_)), kd_)])
+                if isinstance(v, list) and not isinstance(v, PySeq) and v and nm.startswith("torch.") and not node.keywords:
+                    fl_ = _flat(v)
+                    if not fl_:
+                        raise Unfoldable("reduction of an empty tensor")
+                    return pick_(fl_)
+                if isinstance(v, list) and v and not any(isinstance(x, list) for x in v) and not node.keywords:
+                    return pick_(v)
+                raise Unfoldable("min/max form")
             if short == "pow" and len(node.args) == 2:
                 a, b = self.fold(node.args[0]), self.fold(node.args[1])
                 try:
@@ -1040,7 +1149,10 @@ class Folder:
                 return self.fold(node.args[0])
             if short in ("cos", "sin", "sqrt", "exp", "abs") and node.args:
                 f = {"cos": math.cos, "sin": math.sin, "sqrt": math.sqrt, "exp": lambda x: cmath.exp(x) if isinstance(x, complex) else math.exp(x), "abs": abs}[short]
-                return _ew(f, self.fold(node.args[0]))
+                try:
+                    return _ew(f, self.fold(node.args[0]))
+                except (ValueError, OverflowError, TypeError) as exc:
+                    raise Unfoldable(f"{short}: {exc}")
             if short == "complex" and len(node.args) == 2:
                 return _ew(lambda x, y: complex(x, y), self.fold(node.args[0]), self.fold(node.args[1]))
             if short in ("zeros", "ones") and nm.startswith("torch."):
@@ -1067,6 +1179,12 @@ class Folder:
                 return _m.comb(int(a), int(b))
             if short in ("min", "max") and node.args and not node.keywords:
                 vals = [self.fold(a) for a in node.args]
+                if nm.startswith("torch.") and len(vals) == 2:
+                    return _ew((lambda x, y: min(x, y)) if short == "min" else (lambda x, y: max(x, y)), vals[0], vals[1])
+                if len(vals) == 1 and isinstance(vals[0], list):
+                    vals = list(vals[0])
+                if not vals or any(isinstance(x, list) for x in vals):
+                    raise Unfoldable("min/max of nested values")
                 return (min if short == "min" else max)(vals)
             if short == "arange":
                 args = [self.fold(a) for a in node.args]
